@@ -1583,10 +1583,39 @@ def _num_checked_shl(I, fr, t, path, rargs, args):
     raise Undecided(I.where(fr, t['span']), 'checked_shl amount %r' % (n,))
 
 
+def _num_trailing_zeros(I, fr, t, path, rargs, args):
+    a = args[0]
+    if _ai(a) and a.is_const():
+        u = a.uval()
+        return AInt.const(32, False, a.bits if u == 0 else (u & -u).bit_length() - 1, taint=a.taint)
+    if _ai(a):
+        S = a.symbits()
+        z = 0
+        for b in S:
+            if b == 0:
+                z += 1
+                continue
+            if b == 1:
+                return AInt.const(32, False, z, taint=a.taint)
+            break
+        return AInt(32, False, z, a.bits)
+    return AInt(32, False, 0, 128)
+
+
 def _num_leading_zeros(I, fr, t, path, rargs, args):
     a = args[0]
     if _ai(a) and a.is_const():
         return AInt.const(32, False, a.bits - a.uval().bit_length(), taint=a.taint)
+    if _ai(a) and a.sym is not None:
+        z = 0
+        for b in reversed(a.symbits()):
+            if b == 0:
+                z += 1
+                continue
+            if b == 1:
+                return AInt.const(32, False, z, taint=a.taint)
+            break
+        return AInt(32, False, z, a.bits)
     if _ai(a) and not a.signed:
         return AInt(32, False, a.bits - a.hi.bit_length(), a.bits - a.lo.bit_length())
     return AInt(32, False, 0, a.bits if _ai(a) else 128)
@@ -1607,6 +1636,7 @@ NUM_METHODS = {
     'pow': _num_pow,
     'checked_shl': _num_checked_shl,
     'leading_zeros': _num_leading_zeros,
+    'trailing_zeros': _num_trailing_zeros,
 }
 
 
